@@ -44,6 +44,14 @@ class Builder:
                     out.append({"op": "assert", "c": {"e": {"k": self.rng.choice([-1, 0, 1]), "t": [[self.rng.choice([1, -1]), v]]},
                                                       "r": self.rng.choice(["le", "lt", "eq", "ne"])}, "id": self.nassert})
                     continue
+                if self.rng.random() < 0.25:
+                    # an assertion whose bound is TIGHT in the invariant: assume(s*v <= k); assert(s*v < k) (fails exactly at
+                    # the bound), or assert(s*v <= k) (holds), or assert(s*v != k): strict, non-strict and disequality forms
+                    v, sg, k = self.rng.choice(self.ints), self.rng.choice([1, 1, -1]), self.rng.randint(-2, 2)
+                    out.append({"op": "assume", "c": {"e": {"k": -k, "t": [[sg, v]]}, "r": "le"}})
+                    out.append({"op": "assert", "c": {"e": {"k": -k, "t": [[sg, v]]}, "r": self.rng.choice(["lt", "lt", "le", "ne"])},
+                                "id": self.nassert})
+                    continue
                 if self.bools and self.rng.random() < 0.2:
                     out.append({"op": "bassert", "x": self.rng.choice(self.bools), "id": self.nassert})
                 else:
